@@ -29,11 +29,13 @@ import traces
 NTK, NFK = 3, 3
 
 FOCUS = {
-    "C01": dict(p_read=0.6, handles=0.15, weights={}),
+    "C01": dict(p_read=0.6, handles=0.15, weights={"remove": 4, "reads": ["search", "search", "count", "contains", "get", "select", "count", "get_timestamps", "all"]}),
     "C02": dict(p_read=0.45, handles=0.15, weights={"remove": 7, "drop": 3, "remove_all": 2, "update": 1, "update_all": 0}),
     "C03": dict(p_read=0.4, handles=0.15, weights={"update": 8, "update_all": 3, "remove": 1, "fail": 0.0}),
     "C06": dict(p_read=0.45, handles=0.1, weights={"remove": 4, "remove_all": 2, "reindex": 2, "insert_multiple": 3, "fail": 0.15, "bad": 0.3}),
-    "C07": dict(p_read=0.6, handles=0.3, weights={}),
+    "C07": dict(p_read=0.65, handles=0.3, weights={"remove": 5, "drop": 1, "update": 2, "reads": [
+        "all", "len", "iter", "get_measurements", "get_tag_keys", "get_tag_values", "get_field_keys", "get_field_values",
+        "get_timestamps", "get_tag_keys", "get_tag_values", "get_field_keys", "get_field_values", "get_timestamps", "count"]}),
     "C10": dict(p_read=0.5, handles=0.9, weights={"drop": 3, "update": 4, "update_all": 2}),
     "C11": dict(p_read=0.45, handles=0.2, weights={"update": 7, "update_all": 3, "insert_multiple": 5, "fail": 0.7, "bad": 0.6}),
 }
@@ -65,7 +67,7 @@ def random_jobs(pid, n, seed, length):
     f = FOCUS[pid]
     jobs = []
     for i in range(n):
-        g = gen.Gen(seed * 1000003 + i * 7919 + hash(pid) % 1000, ntk=NTK, nfk=NFK, focus=f["weights"], handles=f["handles"])
+        g = gen.Gen(seed * 1000003 + i * 7919 + int(pid[1:]) * 131, ntk=NTK, nfk=NFK, focus=f["weights"], handles=f["handles"])
         kind, ai = traces.CONFIGS[i % 4]
         ops = g.history(g.r.choice(length), p_read=f["p_read"])
         jobs.append(("r%d" % i, kind, ai, ops, g.battery(), NTK, NFK))
